@@ -229,6 +229,34 @@ PROPS = {
              'gradients sum to 1), MPE keeps observed pixels; against the model: per-layer schedule and the scope of every cell (exact; '
              'empirical scopes found by perturbing one pixel), forward values of the unrolled circuit; non-trivial = every configuration; '
              'distinct = distinct configuration',
+    ),    'C05': dict(
+        module='c05',
+        modules=['DeeprobModel.Props.C05', 'DeeprobModel.Oblig.C05'],
+        theorems=['Deeprob.Learn.learn_weights_follow_children', 'Deeprob.Learn.learn_final_proportions', 'Deeprob.Learn.learn_leaf_rows',
+                  'Deeprob.Learn.fifo_requeue_breaks', 'Deeprob.Learn.classifier_root_weights', 'Deeprob.Learn.learn_inv',
+                  'Deeprob.Oblig.C05.requeue_is_front'],
+        fragments=['learnspn.requeue'],
+        rule='the real learn_spn driven through its public split_rows / split_cols / learn_leaf callables by PRNG-scripted answers on '
+             'self-describing data (entry (r,c) = 1000c + r; near-constant and constant stretches to reach REM_FEATURES / SPLIT_NAIVE): '
+             'every fail/succeed pattern of the next column split x row split for 2-3 siblings, 2^4 column patterns for 4 siblings, random '
+             'scripts; the same script replayed in the Lean queue machine with the re-queue discipline extracted from the source; '
+             'classifier wrapper vs class frequencies; non-trivial = result has a sum node; distinct = distinct consultation script',
+    ),    'C04': dict(
+        module='c04',
+        modules=['DeeprobModel.Props.C04', 'DeeprobModel.Props.C03', 'DeeprobModel.Props.Clt'],
+        theorems=['Deeprob.Learn.learn_inv', 'Deeprob.Learn.learn_inv_step', 'Deeprob.Learn.learn_final_valid', 'Deeprob.checkSpn_accept_iff',
+                  'Deeprob.checkSpn_sound', 'Deeprob.Clt.pc_structured', 'Deeprob.Clt.get_scopes_spec'],
+        fragments=['learnspn.requeue'],
+        rule='(i) LearnSPN under scripted splitters (every oracle behaviour); (ii) built-in row splitters x column splitters x leaf '
+             'learners (mle, binary-clt with and without conversion) on binary data with constant / duplicated / near-constant columns '
+             'and few rows; (iii) Gaussian / Uniform / Isotonic / Categorical leaves incl. a constant column; (iv) the classifier wrapper; '
+             '(v) XPC and ensemble-XPC over det x sd x conjunction length x arity x minimum instances x CLT leaves x seeds. Every returned '
+             'circuit: validator (independent spec + model checkSpn), root scope, positive normalised weights, leaf domains, exact total '
+             'mass through the model, exhaustive mass on small binary domains, laminar product scopes when sd is requested; learner '
+             'exceptions are not returns and are only counted; non-trivial = every returned circuit; distinct = distinct configuration',
+        level_note='The queue machine theorems (learn_inv, learn_final_valid) cover LearnSPN for every splitter behaviour; XPC construction is '
+                   'not modelled: its results are decided by the verified validator (checkSpn_accept_iff, checkSpn_sound) run on every '
+                   'returned circuit, i.e. translation-validation style for that learner. Trusted as elsewhere.',
     ),
 }
 
